@@ -175,6 +175,10 @@ func sanitize(s string) string {
 
 // dischargeAll runs the SMT obligations in parallel.
 func dischargeAll(obls []*Obligation, workDir string, timeoutS int, waitAll bool, par int) {
+	dischargeAllOpt(obls, workDir, timeoutS, waitAll, par, true)
+}
+
+func dischargeAllOpt(obls []*Obligation, workDir string, timeoutS int, waitAll bool, par int, retry bool) {
 	os.MkdirAll(workDir, 0o755)
 	var wg sync.WaitGroup
 	sem := make(chan struct{}, par)
@@ -199,6 +203,42 @@ func dischargeAll(obls []*Obligation, workDir string, timeoutS int, waitAll bool
 		}(i, o)
 	}
 	wg.Wait()
+	// Obligations that ended in a timeout or "unknown" (never "sat") get one more attempt, a few at a time and with
+	// a longer budget: under machine load the parallel phase can starve a solver of an otherwise easy goal.
+	var again []int
+	for i, o := range obls {
+		if o.Backend != "" && o.Backend != "smt" {
+			continue
+		}
+		if o.Expect == "" && o.Result.Verdict != "unsat" && o.Result.Verdict != "sat" {
+			again = append(again, i)
+		}
+	}
+	if retry && len(again) > 0 && len(again) <= 24 {
+		sem2 := make(chan struct{}, 4)
+		var wg2 sync.WaitGroup
+		for _, i := range again {
+			wg2.Add(1)
+			go func(i int) {
+				defer wg2.Done()
+				sem2 <- struct{}{}
+				defer func() { <-sem2 }()
+				o := obls[i]
+				f := filepath.Join(workDir, fmt.Sprintf("%04d_%s.smt2", i, sanitize(o.Name)))
+				if len(f) > 200 {
+					f = f[:190] + ".smt2"
+				}
+				r := solveRace(f, timeoutS*3, true)
+				if r.Verdict == "unsat" || r.Verdict == "sat" {
+					o.Result = r
+					if r.Verdict == "sat" {
+						o.Model = parseModel(r.Output)
+					}
+				}
+			}(i)
+		}
+		wg2.Wait()
+	}
 }
 
 // parseModel extracts (define-fun name () Sort value) entries for 0-ary symbols.
